@@ -53,8 +53,9 @@ def ij_arcs(quick):
 
 
 def arc_geometry(sx, sy, rad, a0, m, cw, aligned=False):
-    cx = sx - rad * math.cos(a0)
-    cy = sy - rad * math.sin(a0)
+    # the centre offsets are what a slicer writes (I = -r cos a0, J = -r sin a0); the centre is start + offset
+    cx = sx + (-rad * math.cos(a0))
+    cy = sy + (-rad * math.sin(a0))
     sweep = m * math.pi / 12
     sgn = -1 if cw else 1
     a1 = a0 + sgn * sweep
@@ -69,7 +70,7 @@ def check_ij(arc):
     """Returns (nsegments, violation message | None)."""
     sx, sy, rad, a0, m, cw = arc
     cx, cy, sweep, sgn, ex, ey = arc_geometry(*arc)
-    i, j = cx - sx, cy - sy
+    i, j = -rad * math.cos(a0), -rad * math.sin(a0)
     h = handlers()
     setpos(h, sx, sy)
     try:
@@ -83,6 +84,13 @@ def check_ij(arc):
     r0 = math.hypot(i, j)
     if P[-1] != (ex, ey):
         return N, "C16 last sample %r is not the commanded end point %r" % (P[-1], (ex, ey))
+    # the samples must cover the commanded sweep in steps of at most one length unit *along the arc*: the number
+    # of segments is at least the arc length (the modulo-2pi angle test below cannot see a full circle that
+    # collapsed into a single zero-length segment)
+    need = math.ceil(sweep * r0 - 1e-6)
+    if N < need:
+        return N, ("C16 arc of length %.4f (radius %r, sweep %.4f rad) is sampled with %d segment(s); at most one "
+                   "length unit apart needs at least %d" % (sweep * r0, r0, sweep, N, need))
     tol = max(1e-9, 1e-7 * rad)
     prev = (sx, sy)
     for idx, p in enumerate(P):
